@@ -478,6 +478,10 @@ class Enumerator:
         macs = macro_of(e)
         if macs and macs[-1] in self.opaque_macros:
             return [PathOut([], "fall", "")]
+        if (macs and macs[-1] in ("unreachable", "panic", "unimplemented", "todo") and peel(e).get("k") in ("Call", "MethodCall", "Block", "Match")) \
+                or (peel(e).get("k") in ("Call", "MethodCall") and peel(e).get("ty") == "!"):
+            # the path ends here: nothing after a panic is executed
+            return [PathOut([Ev("call", self.c(e), "panic", node=e)], "diverge", "")]
         e0 = e
         e = peel(e)
         k = e.get("k")
